@@ -784,7 +784,7 @@ Proof.
             exists suf, map sl_layout (d_slides d2) = map sl_layout (d_slides d) ++ suf /\ (length suf <= 1)%nat).
   { intros d2 n f Hf ->. exists []. rewrite app_nil_r, map_upd_nth_preserve by exact Hf.
     split; [reflexivity | cbn; lia]. }
-  destruct o as [l|s|tg e|s x y cx cy]; cbn [step].
+  destruct o as [l|s|tg e|s x y cx cy|s l i]; cbn [step].
   - unfold add_slide. destruct (nth_error (d_layouts d) l) as [L|].
     + destruct (new_slide_tree c (l_shapes L)) as [t [[]|e0]]; intros H; inversion H; subst; cbn.
       * exists [l]. rewrite map_app. cbn. split; [reflexivity|lia].
@@ -809,6 +809,12 @@ Proof.
       destruct (edit_tree M i e) as [t r0]. intros H; inversion H; subst. apply Hsame; reflexivity.
     + destruct (edit_tree (the_notes_master d) i e) as [t r0]. intros H; inversion H; subst. apply Hsame; reflexivity.
   - destruct (nth_error (d_slides d) s) as [sl|]; intros H; inversion H; subst.
+    + eapply Hupd; [|reflexivity]. reflexivity.
+    + apply Hsame; reflexivity.
+  - destruct (nth_error (d_slides d) s) as [sl|]; [|intros H; inversion H; subst; apply Hsame; reflexivity].
+    destruct (nth_error (d_layouts d) l) as [L|]; [|intros H; inversion H; subst; apply Hsame; reflexivity].
+    destruct (nth_error (phs (l_shapes L)) i) as [p|]; [|intros H; inversion H; subst; apply Hsame; reflexivity].
+    destruct (clone_placeholder c KSlide (sl_shapes sl) p) as [t|e0]; intros H; inversion H; subst.
     + eapply Hupd; [|reflexivity]. reflexivity.
     + apply Hsame; reflexivity.
 Qed.
